@@ -18,7 +18,8 @@ REMOVE_CALLERS = {
 
 
 def r1(run):
-    callers = C.callers_of(run.facts, C.REMOVE)
+    rem = C.removers(run.facts)
+    callers = [(b, c) for r in rem for (b, c) in C.callers_of(run.facts, r) if run.facts.enclosing_fn(b) not in rem]     # (Store::remove delegating to the shared function is not a caller to audit)
     run.floor("Store::remove call sites in the GC worker", len([1 for (b, c) in callers if run.facts.enclosing_fn(b) == "xs::store::spawn_gc_worker"]), 1)
     run.floor("Store::remove call sites", len(callers), 2)
     for (b, c) in callers:
@@ -90,7 +91,7 @@ def r3(run):
     if worker is None:
         # find by content anywhere
         for b in facts.all_bodies():
-            if q.live_calls(b, "tokio::sync::mpsc::unbounded::UnboundedReceiver::<T>::blocking_recv") and q.live_calls(b, C.REMOVE):
+            if q.live_calls(b, "tokio::sync::mpsc::unbounded::UnboundedReceiver::<T>::blocking_recv") and q.live_calls(b, *C.removers(facts)):
                 worker = b
     if worker is None:
         run.missing("crate|gc-worker", "no GC worker loop (blocking_recv + Store::remove) found")
@@ -111,12 +112,20 @@ def r3(run):
     run.ob("%s|head-gc|scan-scope" % b.def_, ok_scope and partition_field(sc, 0) == "idx_topic", sc.sp,
            "the scan prefix is <prefix constructor>(task.context_id, task.topic) on idx_topic: %s" % fmt(arg), reason="head-gc-scope")
     # adaptor chain collect <- map <- skip(keep) <- rev <- prefix
-    removes = [c for c in q.live_calls(b, C.REMOVE)]
+    removes = [c for c in q.live_calls(b, *C.removers(facts))]
     head_removes = []
     for c in removes:
         idarg = c.arg(1)
         if any(x[0] == "call" and q.same_call(x[1], sc) for x in walk(idarg)):
             head_removes.append(c)
+    alt = head_gc_enumerate_form(run, b, sc, removes) if not head_removes else None
+    if alt is not None:
+        other = [c for c in removes if not any(q.same_call(c, x) for x in alt)]
+        for c in other:
+            a = strip(c.arg(1))
+            run.ob("%s|remove-arm" % b.def_, any(x[0] == "downcast" and x[2] == "Remove" for x in walk(a)), c.sp, "the Remove arm removes exactly the requested id: %s" % fmt(a),
+                   reason="gc-removes-other-id")
+        return
     run.ob("%s|head-gc|removes-from-scan" % b.def_, len(head_removes) == 1, b.sp, "exactly one Store::remove consumes ids of the head scan (%d)" % len(head_removes),
            reason="head-gc-scope")
     if head_removes:
@@ -149,6 +158,65 @@ def r3(run):
         a = strip(c.arg(1))
         run.ob("%s|remove-arm" % b.def_, any(x[0] == "downcast" and x[2] == "Remove" for x in walk(a)), c.sp, "the Remove arm removes exactly the requested id: %s" % fmt(a),
                reason="gc-removes-other-id")
+
+
+def head_gc_enumerate_form(run, b, sc, removes):
+    """The eviction spelled with positions: `for (pos, entry) in idx_topic.prefix(..).rev().enumerate() { if pos >= keep { stale.push(id) } }`
+    followed by a loop removing the collected ids.  Returns True when this shape was found (its obligations are then recorded)."""
+    pushes = [c for c in q.live_calls(b, "alloc::vec::Vec::<T, A>::push") if any(x[0] == "call" and q.same_call(x[1], sc) for x in walk(c.arg(1)))]
+    if len(pushes) != 1:
+        return None
+    p = pushes[0]
+    vec_defs = [x[1] for x in walk(p.arg(0)) if x[0] == "call" and x[1].fn.startswith("alloc::vec::Vec::<T>::")]
+    if not vec_defs:
+        return None
+    consumers = []
+    for c in removes:
+        if any(x[0] == "call" and any(q.same_call(x[1], v) for v in vec_defs) for x in walk(c.arg(1))):
+            c_ = c
+            consumers.append(c_)
+    run.ob("%s|head-gc|removes-from-scan" % b.def_, len(consumers) == 1, b.sp,
+           "exactly one removal consumes the ids the head scan collected (%d)" % len(consumers), reason="head-gc-scope")
+    chain = [x for x in walk(p.arg(1)) if x[0] == "call" and x[1].fn.startswith("core::iter::traits::iterator::Iterator::")]
+    names = [x[1].fn.split("::")[-1] for x in chain]
+    ok_order = "enumerate" in names and "rev" in names and names.index("enumerate") < names.index("rev") and names.count("enumerate") == 1 and names.count("rev") == 1 \
+        and not any(n in ("take", "step_by", "filter", "skip", "skip_while", "take_while") for n in names)
+    run.ob("%s|head-gc|skip-after-rev" % b.def_, ok_order, sc.sp, "eviction numbers the entries newest-first (enumerate over rev): %s" % " <- ".join(names), reason="head-gc-order")
+    en = [x for x in chain if x[1].fn.endswith("::enumerate")]
+    if en:
+        rl = q.root_local(b, en[0][1].args[0])
+        recv_ty = b.types.adaptor_chain(b.local_ty(rl)) if rl is not None else []
+        run.ob("%s|head-gc|skip-receiver-type" % b.def_, bool(recv_ty) and recv_ty[0] == "core::iter::adapters::rev::Rev", sc.sp,
+               "enumerate is applied to a Rev<..> iterator: %s" % recv_ty[:2], reason="head-gc-order")
+    # the push is guarded by `position >= keep` (keep through casts only)
+    guard = []
+    for bb, si in b.switches():
+        if si["kind"] != "bool":
+            continue
+        cm = q.comparison(si["cond"])
+        if not cm:
+            continue
+        rel, l, r = cm
+
+        def is_pos(x):
+            x = strip(x)
+            return x[0] == "field" and str(x[2]) == "0" and any(y[0] == "call" and y[1].fn.endswith("::enumerate") for y in walk(x))
+
+        def is_keep(x):
+            x = strip(x)
+            while x[0] in ("cast", "ref", "deref"):
+                x = strip(x[1])
+            return x[0] == "field" and x[2] == "keep" and any(y[0] == "downcast" and y[2] == "CheckHeadTTL" for y in walk(x))
+        if is_pos(l) and is_keep(r):
+            pass
+        elif is_pos(r) and is_keep(l):
+            rel = q.SWAP[rel]
+        else:
+            continue
+        guard += q.edge_triples(b, bb, lambda m, rel=rel: isinstance(m, bool) and q.rel_on_edge(rel, m) == "ge")
+    run.ob("%s|head-gc|skip-operand" % b.def_, bool(guard) and q.dominated(b, p.bb, via_edges=guard), p.sp,
+           "an id is collected for eviction only on the `position >= keep` edge (keep = the task's keep, through casts only)", reason="head-gc-count")
+    return consumers
 
 
 UNIT_FNS = {
